@@ -18,7 +18,11 @@ RULE = ("person level: every token sequence of length <= 4 (quick; <= 5 sampled 
         "writing, edits that keep every person a parsed person (abbreviated first names, first names exchanged, the same NameParts "
         "held twice, equal copies, persons dropped / reversed, values exchanged between fields), and after each round trip arbitrary "
         "in-place edits of the NameParts and lists handed out earlier; every step must re-parse (with the shared objects and with new "
-        "ones) to the names that were written. distinct = distinct input text per level; non-trivial = the premises of the "
+        "ones) to the names that were written; streams *-space (all four levels): words that begin / end with, contain, or consist "
+        "only of characters that are whitespace for CPython (str.strip / isspace: U+00A0, FF, VT, U+2003, U+0085, U+2028, FS-US, "
+        "U+1680, U+2000-U+200A, U+2029, U+202F, U+205F, U+3000) but no separators for the name splitters, every token sequence of "
+        "length <= 4 (5 in thorough) with one such character plus sampled names of 1-5 words in the three comma forms next to every "
+        "real separator, in lists also glued to the word `and`, in the stack also at the two ends of the value. distinct = distinct input text per level; non-trivial = the premises of the "
         "inverse law hold (valid names, non-empty last, no word ending in an odd number of backslashes) and some name has >= 2 words")
 TRUSTED = ["the inverse laws are checked directly on the implementation's outputs (harness/props/c14.py), the known class K3 by "
            "names_common.in_k3"]
@@ -107,6 +111,11 @@ def generate(rng, tier):
     # sessions: one set of middleware objects for a whole multi-step program, results edited by the caller in between
     for _ in range(n_sess):
         cases.append({"stream": "session", "input": gen_session(rng, good, adm_name)})
+    # words that begin / end with, or consist only of, characters that CPython calls whitespace (str.strip, str.isspace,
+    # str.split(), \s) but that are no separators for the name splitters (these know ' ', TAB, CR, LF and, inside one name, '~'):
+    # the merge side and the split side must agree on what a word is.  All four levels; generated last so that the streams
+    # above draw the same random numbers as before.
+    cases += space_cases(rng, tier, adm_name)
     return cases
 
 
@@ -133,6 +142,117 @@ def unicode_names(rng, tier):
                 j = rng.randint(i + 1, n - 1)
                 out.append(" ".join(ws[:i]) + ", " + " ".join(ws[i:j]) + ", " + " ".join(ws[j:]))
     return list(dict.fromkeys(out))
+
+
+# ------------------------------------------------------------------ whitespace that is no separator
+# isspace() is True for all of these; none of them separates words or persons for the name splitters
+ODD_MAIN = [chr(c) for c in (0xA0, 0x0C, 0x0B, 0x2003, 0x85, 0x2028)]
+ODD_MORE = [chr(c) for c in (0x1C, 0x1D, 0x1E, 0x1F, 0x1680, 0x2000, 0x2009, 0x200A, 0x2029, 0x202F, 0x205F, 0x3000)]
+# for contrast: invisible, but no whitespace for CPython either (zero width space, BOM, Mongolian vowel separator, word joiner)
+ODD_INVISIBLE = [chr(c) for c in (0x200B, 0xFEFF, 0x180E, 0x2060)]
+SPACE_BASE = ["Aa", "bb", "{Cc}", ",", " ", "~"]
+SPACE_WORDS = ["Aa", "Bb", "cc", "dd", "{Ee}", "{\\'E}x", "J.", "de", "11", "Jr"]
+SPACE_SEPS = [" ", " ", " ", " ", "~", "  ", "\t", "\n", "\r\n", " ~"]
+
+
+def odd_char(rng):
+    r = rng.random()
+    return rng.choice(ODD_MAIN) if r < 0.7 else rng.choice(ODD_MORE) if r < 0.95 else rng.choice(ODD_INVISIBLE)
+
+
+def space_word(rng, w):
+    """a word with such a character before it, after it, on both sides, inside it, or a word made of such characters only"""
+    o = odd_char(rng)
+    r = rng.random()
+    if r < 0.3:
+        return o + w
+    if r < 0.6:
+        return w + o
+    if r < 0.7:
+        return o + w + odd_char(rng)
+    if r < 0.85:
+        return o * rng.choice([1, 1, 2]) if rng.random() < 0.8 else o + odd_char(rng)
+    return w[:1] + o + w[1:]
+
+
+def space_name(rng, nmax=5):
+    """1..nmax words, at least one of them a space_word, in one of the three comma forms; the separators between the
+    words are the real ones in every variety, so the odd character stands next to a blank, a tie, a line break, a comma
+    or the boundary of the name"""
+    n = rng.randint(1, nmax)
+    ws = [rng.choice(SPACE_WORDS) for _ in range(n)]
+    forced = rng.randrange(n)
+    ws = [space_word(rng, w) if i == forced or rng.random() < 0.3 else w for i, w in enumerate(ws)]
+    commas = set()
+    r = rng.random()
+    if n >= 2 and r < 0.5:
+        commas = set(rng.sample(range(1, n), 1 if r < 0.38 or n < 3 else 2))
+    out = ws[0]
+    for i in range(1, n):
+        if i in commas:
+            out += rng.choice([", ", ", ", ",", " ,", " , ", ",\n"])
+        else:
+            out += rng.choice(SPACE_SEPS)
+        out += ws[i]
+    return out
+
+
+def space_cases(rng, tier, ok):
+    import itertools
+    quick = tier == "quick"
+    cases = []
+    # bounded-exhaustive: every token sequence of length <= 4 (5 in thorough) with one of the main characters as a token
+    names = []
+    for o in ODD_MAIN:
+        for L in range(1, 5 if quick else 6):
+            for seq in itertools.product(SPACE_BASE + [o], repeat=L):
+                if o in seq:
+                    names.append("".join(seq))
+    sampled = [space_name(rng) for _ in range(3000 if quick else 60000)]
+    for s in dict.fromkeys(names + sampled):
+        cases.append({"stream": "person-space", "input": {"level": "person", "s": s}})
+    for o in ODD_MAIN:
+        for s in ("Smith," + o + "John", "Ada " + o + " Lovelace", "Jean " + o + "Paul Sartre", "Hans" + o + " Meier", o, o + o + " Aa",
+                  "de" + o + " la Cc, Jr" + o + ", " + o + "Bb"):
+            cases.append({"stream": "witness", "input": {"level": "person", "s": s}})
+    # list level: such names (valid ones, by the independent name oracle) among ordinary ones; the word `and` with such a
+    # character glued to it is no separator either
+    pool = [s for s in dict.fromkeys(sampled + names[::5]) if ok(s)]
+    plain = ["Aa Bb", "Bb, Aa", "cc Dd, Jr, Ee", "{Ee}", "Aa de Bb"]
+    for _ in range(4000 if quick else 60000):
+        n = rng.randint(1, 5)
+        parts = []
+        for i in range(n):
+            parts.append(rng.choice(pool) if rng.random() < 0.7 else rng.choice(plain))
+            if i + 1 < n:
+                o = odd_char(rng)
+                parts.append(rng.choice([" and ", " and ", " and ", " and ", "\nand\n", " AND ", "\tand  ", o + "and ", " and" + o,
+                                         o + "and" + o, " " + o + "and ", " and " + o + " ", " " + o + " and ", " and " + o + "and "]))
+        cases.append({"stream": "list-space", "input": {"level": "list", "s": "".join(parts)}})
+    # whole stack: the same names as field values, also at the two ends of the value and of the line
+    good = [s for s in pool if nc.balanced(s) and "\\" not in s.replace("\\'", "")]
+    for _ in range(500 if quick else 8000):
+        keys = list(NF)
+        rng.shuffle(keys)
+        fields = []
+        for key in keys[:rng.randint(1, 3)]:
+            n = rng.randint(1, 4)
+            fields.append([key, " and ".join(rng.choice(good) if rng.random() < 0.75 else rng.choice(plain) for _ in range(n))])
+        if rng.random() < 0.3:
+            fields.insert(rng.randint(0, len(fields)), ["title", "Xx" + odd_char(rng) + " and " + odd_char(rng) + "yy"])
+        cases.append({"stream": "stack-space", "input": {"level": "stack", "fields": fields}})
+    for o in ODD_MAIN:
+        cases.append({"stream": "witness", "input": {"level": "stack", "fields": [["author", "Smith," + o + "John and Ada " + o + " Lovelace"],
+                                                                                  ["editor", o + "Aa Bb" + o]]}})
+    # sessions whose pool of persons contains such names
+    for _ in range(120 if quick else 1500):
+        cases.append({"stream": "session-space", "input": gen_session(rng, good, ok)})
+    return cases
+
+
+def odd_edge(dicts):
+    """some word begins or ends with a character that is whitespace for CPython"""
+    return any(w and (w[0].isspace() or w[-1].isspace()) for d in dicts for w in nc.all_words(d))
 
 
 # ------------------------------------------------------------------ sessions (oracle only)
@@ -280,6 +400,8 @@ def impl(case):
         rec["oracle"] = {"ok": ok, "detail": detail}
         rec["nontrivial"] = adm and len(nc.all_words(r[1])) >= 2
         rec["tags"].append("person_admissible" if adm else "person_outside_premises")
+        if odd_edge([r[1]]):
+            rec["tags"].append("word_edge_is_python_whitespace")
         rec["summary"] = repr((m, r2))[:200]
         return rec
 
@@ -327,6 +449,8 @@ def impl(case):
         rec["tags"].append("list_admissible" if adm else "list_outside_premises")
         if k3:
             rec["tags"].append("list_in_K3_class")
+        if odd_edge(dicts):
+            rec["tags"].append("word_edge_is_python_whitespace")
         rec["tags"].append("persons=%d" % len(ps))
         rec["summary"] = repr((v2, names2))[:200]
         return rec
@@ -396,6 +520,8 @@ def impl(case):
         # proves under `writable`; inputs of the two known classes are exactly those outside it: Python oracle only
         rec["skip"] = True
     rec["tags"].append("stack_admissible" if adm else "stack_outside_premises")
+    if odd_edge(dicts):
+        rec["tags"].append("word_edge_is_python_whitespace")
     rec["summary"] = repr(text2)[:200]
     return rec
 
